@@ -91,7 +91,8 @@ type Decl struct {
 	IntLike  bool     // underlying int (witness for ~int constraints)
 	Alias    bool
 	Exported bool
-	MultiRef bool // interface whose one method type mentions several packages at once
+	NonType  string // package-level object that is not a type: var-iface | var-error | func | const (hostile arguments only)
+	MultiRef bool   // interface whose one method type mentions several packages at once
 }
 
 // Qual resolves the qualifier prefix ("" or "name.") for a package in the current file.
@@ -144,6 +145,10 @@ func (s *Sig) render(q Qual, withNames bool) string {
 func (t *Ty) Render(q Qual) string {
 	switch t.K {
 	case KBasic, KTParam:
+		if t.Elem != nil && strings.HasSuffix(t.Name, "\x00") {
+			// union term with a tilde / composite prefix around a named type: ~[]pkg.T
+			return strings.TrimSuffix(t.Name, "\x00") + t.Elem.Render(q)
+		}
 		return t.Name
 	case KNamed:
 		s := q(t.Pkg) + t.Name
